@@ -30,6 +30,9 @@ SRC = {
     # a function NAMED like a name the library's sources use (Tuple), and a later source that needs that name
     15: "def Tuple(a: bool, b: bool) -> bool:\n    return a != b",
     16: "def tp(t: Tuple[bool, bool]) -> bool:\n    return t[0] and not t[1]",
+    # constant locals: with fastOptimizer the circuits use the shared constant qubits
+    17: "def cl(a: bool, b: bool) -> bool:\n    c = True\n    if a:\n        c = b\n    return c",
+    18: "def cm(x: bool, y: bool, z: bool) -> bool:\n    t = True\n    u = False\n    if z:\n        u = x and y\n    return u ^ t",
 }
 
 
@@ -173,10 +176,10 @@ def run(pid):
     use_repo()  # the parent imports the library and does nothing else: children are fresh interpreters
     with Scratch("C10") as sc:
         cfg = "SPECIFICATION Spec\nCONSTANTS MaxLen = %d\n MaxLive = 3\n Progs = {%s}\nINVARIANT Emit\nCHECK_DEADLOCK FALSE\n"
-        r = tlc.run_model("Session", cfg % (2, "1,2,3,4,5,6,7,8,9,10,11,12,13,14,15,16"), sc, workers=8, timeout=900, tags=("S",), heap="6g")
+        r = tlc.run_model("Session", cfg % (2, "1,2,3,4,5,6,7,8,9,10,11,12,13,14,15,16,17,18"), sc, workers=8, timeout=900, tags=("S",), heap="6g")
         hists = [json.loads(v[1]) for v in r["prints"]["S"]]
         gst = dict(r["stats"])
-        r3 = tlc.run_model("Session", cfg % (3, "1,2,3,4,7,9,11,12,14,15,16" if quick else "1,2,3,4,5,6,7,8,9,10,11,12,13,14,15,16"), sc, workers=8, timeout=1800, tags=("S",), heap="8g")
+        r3 = tlc.run_model("Session", cfg % (3, "1,2,3,4,7,9,11,12,14,15,16,17,18" if quick else "1,2,3,4,5,6,7,8,9,10,11,12,13,14,15,16,17,18"), sc, workers=8, timeout=1800, tags=("S",), heap="8g")
         h3 = [h for h in (json.loads(v[1]) for v in r3["prints"]["S"]) if len(h) == 3]
         for k in ("generated", "distinct"):
             gst[k] = gst.get(k, 0) + r3["stats"].get(k, 0)
